@@ -79,7 +79,7 @@ class Script:
         with self.lock:
             self.reads = 0
             self.writes = 0
-            self.log = []  # (kind, n, offset, length, outcome)
+            self.log = []  # (kind, n, offset, length, "status"|"data"|"result", value); "status" = injected fault
 
     def next_read(self):
         with self.lock:
@@ -118,11 +118,11 @@ class FaultyHandle(sftpbench.BenchHandle):
                 time.sleep(d)
         code = sc.fail_read.get(n)
         if code is not None:
-            sc.log.append(("read", n, offset, length, code))
+            sc.log.append(("read", n, offset, length, "status", code))
             return code
         k = sc.limit(n, length)
         data = super().read(offset, k)
-        sc.log.append(("read", n, offset, length, len(data) if isinstance(data, (bytes, bytearray)) else data))
+        sc.log.append(("read", n, offset, length) + (("data", len(data)) if isinstance(data, (bytes, bytearray)) else ("status", data)))
         return data
 
     def write(self, offset, data):
@@ -134,10 +134,10 @@ class FaultyHandle(sftpbench.BenchHandle):
                 time.sleep(d)
         code = sc.fail_write.get(n)
         if code is not None:
-            sc.log.append(("write", n, offset, len(data), code))
+            sc.log.append(("write", n, offset, len(data), "status", code))
             return code
         r = super().write(offset, data)
-        sc.log.append(("write", n, offset, len(data), r))
+        sc.log.append(("write", n, offset, len(data), "result", r))
         return r
 
 
